@@ -1242,6 +1242,10 @@ class Manifest:
             source = self._manifest[target]
             if os.path.isabs(target):
                 raise experiment.model.errors.FlowIRManifestKeyIsAbsolutePath(target)
+            # VV: targets are relative paths *under* the instance directory, they must not climb out of it
+            if os.path.pardir in target.replace(os.path.altsep or os.path.sep, os.path.sep).split(os.path.sep):
+                raise experiment.model.errors.FlowIRManifestSyntaxException(
+                    f'Manifest target "{target}" is invalid because it contains parent-directory (..) segments')
             try:
                 _, method = source.rsplit(':', 1)
             except ValueError:
